@@ -91,3 +91,16 @@ def QW(n, mults=(1, 2)):
             for ms in itertools.product(mults, repeat=3):
                 if sum(ms) >= n:
                     yield ((ms[0], R[i]), (ms[1], R[j]), (ms[2], w))
+
+
+def BP(n, bmax=4, npairs=2, pmults=(1, 2)):
+    """'bullets + pairs': a bullet pile of 0..bmax ballots for each of the n candidates plus npairs distinct two-preference
+    ballot types (P Q) with multipliers from pmults.  Reaches multi-stage histories with few candidates: several successive
+    exclusions whose transfers reorder the leaders (e.g. Scottish ties that two earlier stages decide differently)."""
+    pairs = list(itertools.permutations(range(1, n + 1), 2))
+    for bullets in itertools.product(range(bmax + 1), repeat=n):
+        base = [(m, (c,)) for c, m in enumerate(bullets, 1) if m]
+        for combo in itertools.combinations(pairs, npairs):
+            for ms in itertools.product(pmults, repeat=npairs):
+                if sum(bullets) + sum(ms) >= n:
+                    yield tuple(base + [(m, p) for m, p in zip(ms, combo)])
